@@ -129,6 +129,44 @@ fn check_inner(corpus: usize, cfg: usize, with_dict: bool) -> Option<String> {
         Ok(p) => p,
         Err(e) => return Some(format!("Predictor::new rejects the trained model: {}", e)),
     };
+    // the stored tag scores equal the learned quantised classifier applied to the trainer's tag features
+    // (through the verification hook VERIF_TAG_LEARNED)
+    #[cfg(vaporetto_verif)]
+    {
+        let learned = vaporetto::VERIF_TAG_LEARNED.lock().unwrap().clone();
+        let (m2, _) = Model::read_slice(&bytes).ok()?;
+        let mut p2 = Predictor::new(m2, true).ok()?;
+        p2.store_tag_scores(true);
+        for line in CORPORA[corpus].iter() {
+            let gold = Sentence::from_tokenized(line).unwrap();
+            let mut s = Sentence::from_raw(gold.as_raw_text().to_string()).unwrap();
+            p2.predict(&mut s);
+            s.boundaries_mut().copy_from_slice(gold.boundaries());
+            s.fill_tags();
+            for tok in s.iter_tokens() {
+                let cands = match want.get(tok.surface()) { Some(c) => c, None => continue };
+                let feats = crate::trainref::tag_features(&s, tok.start(), tok.end(), CONFIGS[cfg]);
+                let got = tok.tag_candidates();
+                let mut class = 0usize;
+                for (c, cand) in cands.iter().enumerate() {
+                    if cand.len() < 2 {
+                        continue;
+                    }
+                    for (j, tag) in cand.iter().enumerate() {
+                        let w = |name: &str| -> i64 {
+                            learned.iter().filter(|(t, cl, f, _)| t == tok.surface() && *cl == class + j && f == name).map(|x| x.3 as i64).sum()
+                        };
+                        let expect = w("bias") + feats.iter().map(|f| w(f)).sum::<i64>();
+                        let actual = got.get(c).and_then(|v| v.iter().find(|(t, _)| t == tag)).map(|x| x.1 as i64);
+                        if actual != Some(expect) {
+                            return Some(format!("token {:?} in {:?}, category {}, candidate {:?}: the learned quantised classifier gives {}, the stored tag score is {:?}", tok.surface(), line, c, tag, expect, actual));
+                        }
+                    }
+                    class += cand.len();
+                }
+            }
+        }
+    }
     let mut lines: Vec<String> = CORPORA[corpus].iter().map(|l| l.to_string()).collect();
     lines.push("q 人 q".to_string());
     for line in &lines {
